@@ -473,6 +473,30 @@ class Engine:
         except Unsupported as e:
             return Unk(str(e))
 
+    def known_names(self):
+        """every name that is bound somewhere: builtins, module-level bindings (assignments, defs, classes, imports, anywhere at module
+        level), and any name stored anywhere in the function (parameters, locals, loop / with / except / comprehension targets)"""
+        kn = getattr(self, "_known", None)
+        if kn is None:
+            import builtins
+            kn = set(dir(builtins))
+            for tree in (self.mod.tree, self.fn):
+                for n in ast.walk(tree):
+                    if isinstance(n, ast.Name) and isinstance(n.ctx, (ast.Store, ast.Del)):
+                        kn.add(n.id)
+                    elif isinstance(n, (ast.FunctionDef, ast.AsyncFunctionDef, ast.ClassDef)):
+                        kn.add(n.name)
+                    elif isinstance(n, ast.alias):
+                        kn.add((n.asname or n.name).split(".")[0])
+                    elif isinstance(n, ast.arg):
+                        kn.add(n.arg)
+                    elif isinstance(n, ast.ExceptHandler) and n.name:
+                        kn.add(n.name)
+                    elif isinstance(n, (ast.Global, ast.Nonlocal)):
+                        kn.update(n.names)
+            self._known = kn
+        return kn
+
     def module_const(self, name):
         if name in self._modconst:
             return self._modconst[name]
@@ -489,7 +513,10 @@ class Engine:
                 n += 1
                 val = v
         if n == 1:
-            r = Engine(self.ctx, self.rel, None)._ev(val, State({}, Interval()))
+            try:
+                r = Engine(self.ctx, self.rel, None)._ev(val, State({}, Interval()))
+            except (Raised, Unsupported):
+                r = Unk("module constant")
             if not _has_unknown(r):
                 self._modconst[name] = r
         return self._modconst[name]
@@ -509,6 +536,8 @@ class Engine:
             mc = self.module_const(node.id)
             if mc is not None:
                 return mc
+            if self.fn is not None and node.id not in self.known_names():
+                raise Raised("NameError")            # bound nowhere: not a local, not a module-level name, not a builtin
             return Opaque("name:" + node.id, ())
         if isinstance(node, ast.JoinedStr):
             return self.fstring(node, st)
@@ -652,6 +681,10 @@ class Engine:
                 return Tup(a.items * as_int(b))
         if isinstance(op, ast.Mod) and is_str(a):
             return percent_format(a, b)
+        if (is_str(a) or is_str(b)) and (isinstance(op, (ast.Sub, ast.Div, ast.FloorDiv, ast.Pow)) or
+                                         (isinstance(op, ast.Add) and (is_num(a) or is_num(b))) or
+                                         (isinstance(op, ast.Mult) and is_str(a) and is_str(b))):
+            raise Raised("TypeError")                # text combined with an arithmetic operator
         return Opaque("binop:" + type(op).__name__, (a, b))
 
     def subscript(self, node, st):
